@@ -6,7 +6,7 @@ import ast
 from sa.absint import Evaluator, all_effects
 from sa.index import AnalysisError
 from sa.terms import App, Const, Ref, Sym, cat_parts, list_items, subterms
-from . import argname
+from . import argname, generic
 from .layout import find_effect_calls
 
 EXPLANATION = ("end-to-end abstract evaluation of ImageCreator.create_files_for_update (helpers inlined): the struct format "
@@ -40,6 +40,7 @@ def parse_format(fmt):
 
 def run(ctx):
     R = ctx.report
+    generic.cli_converters(ctx, "C16-D3b CLI converters", "suit_generator.cmd_image", 4)
     repo = ctx.repo
     ctx.use_files("suit_generator/cmd_image.py", "ncs/build.py")
     ev = Evaluator(repo, inline_depth=5)
